@@ -82,8 +82,8 @@ def _concat(repo, col):
                   node=gbi[0].node if gbi else fi.node)
         gce = _stores(ex, "global_cell_index")
         if cls == "Network":
-            t = unparse(gce[0].stmt.value) if gce else ""
-            okx = "[[i] * int(cell.cumsum_ncomp[-1]) for i, cell in enumerate(cells)]" in t and "itertools.chain(*" in t
+            okx = bool(gce) and idx.same_expr(repo, fi, gce[0].stmt, gce[0].stmt.value,
+                                             "list(itertools.chain(*[[i] * int(cell.cumsum_ncomp[-1]) for i, cell in enumerate(cells)]))")
         elif cls == "Cell":
             okx = bool(gce) and idx.same_expr(repo, fi, gce[0].stmt, gce[0].stmt.value, "np.repeat(0, self.cumsum_ncomp[-1]).tolist()")
         else:
@@ -95,17 +95,23 @@ def _concat(repo, col):
         t = unparse(npb[0].stmt.value) if npb else ""
         want = {"Branch": "np.asarray([self.ncomp])", "Cell": "np.asarray([branch.ncomp for branch in branch_list])",
                 "Network": "np.concatenate([cell.ncomp_per_branch for cell in cells])"}[cls]
-        col.check(t == want, R, fi, f"{cls}: ncomp_per_branch taken from the constituents in order", want,
+        col.check(bool(npb) and idx.same_expr(repo, fi, npb[0].stmt, npb[0].stmt.value, want), R, fi,
+                  f"{cls}: ncomp_per_branch taken from the constituents in order", want,
                   f"ncomp_per_branch is {t}", node=npb[0].node if npb else fi.node)
         cs = [s for s in ex.stores if s.kind == "attr" and s.key.name == "cumsum_ncomp"]
         col.check(bool(cs) and idx.same_expr(repo, fi, cs[0].stmt, cs[0].stmt.value, "cumsum_leading_zero(self.ncomp_per_branch)"), R, fi,
                   f"{cls}: cumsum_ncomp = cumsum_leading_zero(ncomp_per_branch)", "",
                   f"cumsum_ncomp is {unparse(cs[0].stmt.value) if cs else None}", node=cs[0].node if cs else fi.node)
     fi = repo.method("Network", "__init__")
-    src = unparse(fi.node)
-    ok = "self.xyzr += deepcopy(cell.xyzr)" in src
-    col.check(ok, R, fi, "Network: coordinates of the cells are copied in order", "xyzr += deepcopy(cell.xyzr)",
-              "coordinates are not deep-copied per cell in order", node=fi.node)
+    exn_ = idx.expander(repo, fi)
+    xs = [s_ for s_ in exn_.stores if ((s_.kind in ("aug", "mcall") and s_.base.op == "attr" and s_.base.name == "xyzr") or
+                                       (s_.kind == "attr" and s_.key.name == "xyzr")) and
+          s_.value is not None and T.find(s_.value, lambda x: x.op == "attr" and x.name == "xyzr" and x.args[0].op == "elem") is not None]
+    in_order = bool(xs) and all(any(g.op == "loop" for g in s_.guards) and
+                                T.find(s_.value, lambda x: x.op == "elem" and T.find(x, lambda y: y.op in ("param", "attr") and y.name in ("cells", "_cells_list")) is not None) is not None
+                                for s_ in xs)
+    col.check(in_order, R, fi, "Network: coordinates of the cells are appended cell by cell, in the order of the cell list",
+              "for cell in cells: xyzr += <copy of cell.xyzr>", "the coordinates of the network are not collected from its cells in order", node=fi.node)
 
 
 def _offsets(repo, col):
@@ -114,7 +120,8 @@ def _offsets(repo, col):
     ex = idx.expander(repo, fi)
     cp = [s for s in ex.stores if s.kind == "attr" and s.key.name == "comb_parents"]
     t = unparse(cp[-1].stmt.value) if cp else ""
-    ok = t == "jnp.concatenate([p.at[1:].add(self._cumsum_nbranches[i]) for i, p in enumerate(parents)])"
+    ok = bool(cp) and idx.same_expr(repo, fi, cp[-1].stmt, cp[-1].stmt.value,
+                                    "jnp.concatenate([p.at[1:].add(self._cumsum_nbranches[i]) for i, p in enumerate(parents)])")
     col.check(ok, R, fi, "parents: non-root entries of cell i are shifted by the branch offset of cell i",
               "p.at[1:].add(cumsum_nbranches[i])", f"comb_parents is {t}", node=cp[-1].node if cp else fi.node)
     par = next((n for n in walk_no_nested(fi.node) if isinstance(n, ast.Assign) and unparse(n.targets[0]) == "parents"), None)
@@ -164,7 +171,9 @@ def _offsets(repo, col):
     exn = idx.expander(repo, nj)
     for c in [c for c in exn.calls if isinstance(c.func, ast.Name) and c.func.id == "merge_cells"]:
         a = [unparse(x) for x in c.args[:2]]
-        col.check(a == ["self._cumsum_nbranches", "self._cumsum_nbranchpoints_per_cell"], R, nj,
+        at = [exn.term(x) for x in c.args[:2]]
+        col.check(len(at) == 2 and all(t_.op == "attr" and t_.args[0].op == "param" and t_.args[0].name == "self" for t_ in at) and
+                  [t_.name for t_ in at] == ["_cumsum_nbranches", "_cumsum_nbranchpoints_per_cell"], R, nj,
                   f"merge_cells receives (branch offsets, branch-point offsets): {unparse(c.args[2])[:50]}", str(a),
                   f"merge_cells is called with {a}", node=c)
     # padded widths: the cumulative widths handed to the indexer come from the cells' OWN solve indexers, in cell order
@@ -180,7 +189,7 @@ def _offsets(repo, col):
               "cumsum_leading_zero(concatenate([diff(cell._solve_indexer.cumsum_ncomp) for cell in cells]))",
               f"the indexer's cumsum_ncomp is {cs.short(140) if cs is not None else None}", node=ic)
     ri = next((k.value for c in exn.calls if isinstance(c.func, ast.Name) and c.func.id == "JaxleySolveIndexer" for k in c.keywords if k.arg == "root_inds"), None)
-    col.check(ri is not None and unparse(ri) == "self._cumsum_nbranches[:-1]", R, nj, "roots of the network = first branch of every cell",
+    col.check(ri is not None and idx.same_expr(repo, nj, None, ri, "self._cumsum_nbranches[:-1]"), R, nj, "roots of the network = first branch of every cell",
               "cumsum_nbranches[:-1]", f"root_inds is {unparse(ri) if ri is not None else None}", node=ri or nj.node)
     # ---- edge blocks of the generic sparse system: the method is EXECUTED ABSTRACTLY for one symbolic cell (compartment
     # offset Noff, branch-point offset Poff, ncell compartments, Ntot compartments in the network); what reaches pd.concat
